@@ -93,7 +93,7 @@ def twice_pairs():
     """one macro pasted at two places that are related (same method, URLs with a common parameterised prefix, same
     project): (name, inlined text, macro text).  Pasting twice equals writing the body twice."""
     def ind(lines, n):
-        return "".join("  " * n + x + "\n" for x in lines)
+        return "".join(("  " * n + x if x else "") + "\n" for x in lines)
     payloads = {
         "path_decl": (["Path", "{", '  "zp": 1', "}"], "url2"),
         "description": (["Description", "  pasted text"], "method"),
@@ -127,6 +127,24 @@ def twice_pairs():
         once_inl = "JSIGHT 0.3\n" + doc(lambda n: ind(body, n), lambda n: "")
         res.append((nm + "_twice", inl, mcr))
         res.append((nm + "_once", once_inl, once))
+    # one macro pasted into two DIFFERENT hosts (every region of the macro text is read once per PASTE): bodies of several
+    # lines, in every line-end convention
+    hosts = {
+        "desc4": ["Description", "  First line of the text.", "    Second line, deeper.", "", "  Third line after an empty one.", "  Fourth and last line."],
+        "desc_paren": ["Description", "(", "  Text in parentheses,", "  on two lines and a half", ")"],
+        "query_notes": ['Query "q=1&r=two"', "{", '  "zq": 1, // first note', '  "zr": "x" /* a note', "     on two lines */", "}"],
+        "request": ["Request", "  Headers", "  {", '    "X-Z": "v" // {optional: true}', "  }", "  Body", "  {", '    "zb": [1, 2, 3],', '    "zc": {"zd": null}', "  }"],
+        "resp_enum": ["201", "{", '  "e": "a" // {enum: ["a", "b"]}', "}"],
+        "resp_regex": ["202 regex", "  /^ab+c$/"],
+        "resp_headers": ["203", "  Headers", "  {", '    "X-Y": 1', "  }", "  Body any"],
+    }
+    for nm, body in hosts.items():
+        mac = "MACRO @ztw\n(\n" + ind(body, 1) + ")\n"
+        inl = "JSIGHT 0.3\nGET /ztw/a // first\n" + ind(body, 1) + "  200 any\nPOST /ztw/b\n" + ind(body, 1) + "  200 any\nURL /ztw/c\n  PUT\n" + ind(body, 2) + "    200 any\n"
+        mcr = ("JSIGHT 0.3\n" + mac + "GET /ztw/a // first\n  PASTE @ztw\n  200 any\nPOST /ztw/b\n  PASTE @ztw\n  200 any\n"
+               "URL /ztw/c\n  PUT\n    PASTE @ztw\n    200 any\n")
+        for conv, nl in (("lf", "\n"), ("crlf", "\r\n"), ("cr", "\r")):
+            res.append(("%s_three_hosts_%s" % (nm, conv), inl.replace("\n", nl), mcr.replace("\n", nl)))
     return res
 
 
